@@ -20,12 +20,23 @@ var VerifC13PreHeld int
 // VerifC13Restart: after the pre-held IP is allocated galaxy-ipam restarts before the pod is scheduled.
 var VerifC13Restart bool
 
+// VerifC13Reconfigured: galaxy-ipam first ran with a former configuration (same subnets and ranges, other VLAN ids)
+// and was reconfigured live (ConfigurePool in the same process) to the configuration in force before the pod arrives.
+var VerifC13Reconfigured bool
+
 // VerifBindForC13 schedules one statefulset pod requesting k ranges (k = 0 means no request_ip_range) on topology
 // topo whose pools carry the VLAN ids vlans (pool i gets vlans[i mod len]; may be symbolic) through the real Filter and Bind and reports the outcome.
 func VerifBindForC13(topo, k int, vlans ...uint16) *VerifBound {
 	floatingip.VPoolVlanOverride = vlans
 	defer func() { floatingip.VPoolVlanOverride = nil }()
 	w := vpNewWorld(topo, false)
+	if VerifC13Reconfigured {
+		floatingip.VPoolVlanOverride = []uint16{9, 11}
+		if err := w.configure(); err != nil {
+			return nil
+		}
+		floatingip.VPoolVlanOverride = vlans
+	}
 	if err := w.configure(); err != nil {
 		return nil
 	}
